@@ -28,6 +28,7 @@ def rules(ctx):
     c122(ctx)
     c123(ctx)
     c124(ctx)
+    C09.c096(ctx)
 
 
 def c12_reader_gates(ctx):
